@@ -393,3 +393,7 @@ mod tests {
         }
     }
 }
+
+#[cfg(kani)]
+#[path = "/verif/harness/may_queue/mpsc_list_v1.rs"]
+mod verif_kani;
